@@ -1,6 +1,6 @@
 From Coq Require Import ExtrOcamlBasic ExtrOcamlString.
 From Martian.Common Require Import ExtractBase.
-From Martian.C10 Require Import Gen_H2Const Model.
+From Martian.C10 Require Import Gen_H2Const Model Model_Oracle.
 Extraction Language OCaml.
 Extraction "model.ml" base_anchor cfg_fixed cfg_orig cfg_src cap init step run accepts
-  quiescentb obs_of c10_ok census goroutines predict measure blocks.
+  quiescentb obs_of c10_ok census goroutines predict measure blocks c10_verdict c10_applicable model_raw.
